@@ -35,7 +35,7 @@ const (
 	traceNO       = 6 // owner ids per chain (dense, in order of first use)
 	traceNL       = 4
 	ringKey       = "partitions"
-	eventsPerFile = 40000
+	eventsPerFile = 50000
 )
 
 type partJ struct {
